@@ -626,3 +626,108 @@ def as_cmd_seq_chain(H):
     H.prove(names.index("expand_shorthand") < names.index("arcs_to_cubics"), "as_cmd_seq.shorthand_expanded_before_arcs_become_cubics", detail=str(names))
     H.prove(trace[0][1] == id(src) and not trace[0][2] and all(trace[i][1] == trace[i - 1][3] for i in range(1, 4)), "as_cmd_seq.each_step_works_on_the_result_of_the_previous_and_never_on_the_receiver", detail=str(trace))
     H.prove(src.d == "M0,0 a10,10 0 0 1 20,0 s10,10 20,0 h5" and res is objs.get(trace[-1][3]), "as_cmd_seq.receiver_unchanged_result_is_the_last_step")
+
+
+# ------------------------------------------------------------------------------------------------ shape-level boolean operations (glue over svg_pathops)
+@obligation(("C13", "C03", "C19"), "shapes.boolean_glue", split=("op", ("union", "intersection", "difference")), functions=["svg_types.union", "svg_types.intersection", "svg_types.difference"])
+def boolean_glue(H):
+    """svg_types.union / intersection / difference: EVERY shape handed in contributes its geometry (its normalised command
+    sequence), whatever its paint says - a clip child with fill="none" or opacity 0 still clips (SVG 14.3.5) - each under its
+    clip-rule (or the rules the caller names, for intersection), in the caller's order; and the engine runs WHEN THE FUNCTION
+    IS CALLED: the result does not change if an operand is modified before the commands are consumed (picosvg's own idiom is
+    p.update_path(op((p, q)), inplace=True), which empties p first)."""
+    from picosvg import svg_pathops, svg_types
+    from picosvg.svg_types import SVGPath, SVGShape
+
+    op = H.case("op", ("union", "intersection", "difference"))
+    fn = getattr(svg_types, op)
+    if H.mode == "concrete":
+        p, q = SVGPath(d="M0,0 L10,0 L10,10 L0,10 Z", fill="none", opacity=0.0), SVGPath(d="M5,5 L15,5 L15,15 L5,15 Z")
+        res = fn((p, q))
+        p.d = ""  # what update_path(..., inplace=True) does before it iterates
+        cmds = list(res)
+        xs = [a for c, args in cmds for a in args[0::2]]
+        want = {"union": (0, 15), "intersection": (5, 10), "difference": (0, 10)}[op]
+        H.prove(bool(xs) and (min(xs), max(xs)) == want, "boolean_glue.engine_runs_at_call_time_with_every_operand", detail=str(cmds)[:200])
+        return
+    calls = []
+
+    def rec(name):
+        def r(I, seqs, rules):
+            seqs = [list(x) for x in seqs]
+            calls.append((name, seqs, list(rules)))
+            return iter([("M", (0.0, 0.0)), ("L", (1.0, 0.0)), ("L", (1.0, 1.0)), ("Z", ())])
+        return r
+
+    for name in ("union", "intersection", "difference"):
+        H.override(getattr(svg_pathops, name), rec(name))
+    seq_of = {}
+
+    def rec_cmd_seq(I, self_):
+        seq_of[id(self_)] = [("M", (float(len(seq_of)), 0.0))]
+        return iter(seq_of[id(self_)])
+
+    H.override(SVGShape.as_cmd_seq, rec_cmd_seq)
+    shapes = [SVGPath(d="M0,0 L1,0 L1,1 Z", fill="none", clip_rule="evenodd"), SVGPath(d="M2,2 L3,2 L3,3 Z", opacity=0.0), SVGPath(d="M4,4 L5,4 L5,5 Z", display="none", fill_opacity=0.0, clip_rule="evenodd")]
+    explicit = H.case("rules_given", (False, True)) if op == "intersection" else False
+    kwargs = {"fill_rules": ("nonzero", "evenodd", "nonzero")} if explicit else {}
+    res, e = H.catch(fn, tuple(shapes), **kwargs)
+    H.prove(e is None, "boolean_glue.no_exception", detail=repr(e))
+    if e is not None:
+        return
+    H.prove(len(calls) == 1 and calls[0][0] == op, "boolean_glue.engine_runs_at_call_time_with_every_operand", detail=str([c[0] for c in calls]))
+    if len(calls) != 1:
+        return
+    _, seqs, rules = calls[0]
+    H.prove(len(seqs) == 3 and all(seqs[i] == seq_of.get(id(shapes[i])) for i in range(3)), "boolean_glue.every_shape_contributes_in_the_callers_order_whatever_its_paint", detail=str(seqs))
+    H.prove(rules == (["nonzero", "evenodd", "nonzero"] if explicit else ["evenodd", "nonzero", "evenodd"]), "boolean_glue.each_shape_under_its_clip_rule_or_the_named_rule", detail=str(rules))
+
+
+# ------------------------------------------------------------------------------------------------ the final gate
+@obligation(("C01", "C17"), "gate.checkpicosvg", functions=["svg.SVG.checkpicosvg"])
+def gate_check(H):
+    """checkpicosvg on <svg><defs><linearGradient><stop/></linearGradient><mask/></defs><g opacity><path/><path/><image/>
+    <g><path/><text/></g></g><path id=dup/><path id=dup/><text/></svg>: every element that is not defs / gradient / stop / g / path
+    at an allowed place is reported - WHEREVER it sits, also deep inside groups that are themselves fine - or removed when
+    drop_unsupported is set; text passes only with allow_text and only at the root; a reused id and a missing defs are
+    reported; a conforming tree gives ()."""
+    from .fake_tree import local
+
+    if H.mode == "concrete":
+        bad = SVG.fromstring('<svg xmlns="http://www.w3.org/2000/svg" xmlns:xlink="http://www.w3.org/1999/xlink"><defs/><g opacity="0.5"><path d="M0,0 L1,0 L1,1 Z"/><path d="M2,0 L3,0 L3,1 Z"/><image xlink:href="x.png"/></g></svg>').checkpicosvg()
+        H.prove(any("image" in b for b in bad), "gate.unsupported_element_reported_wherever_it_sits", detail=str(bad))
+        return
+    fake_tree.install(H)
+    fake_tree.install_xpath(H, SVG)
+    allow_text = H.case("allow_text", (False, True))
+    drop = H.case("drop_unsupported", (False, True))
+    el = lambda tag, attrib=None, children=(): FakeElement(SVGNS + tag, attrib, children)
+    image, deep_text, mask, root_text = el("image", {}), el("text", {}), el("mask", {}), el("text", {})
+    inner = el("g", {"opacity": "0.3"}, [el("path", {"d": "M0,0"}), deep_text])
+    group = el("g", {"opacity": "0.5"}, [el("path", {"d": "M0,0"}), el("path", {"d": "M1,1"}), image, inner])
+    defs = el("defs", {}, [el("linearGradient", {"id": "g"}, [el("stop", {"offset": "0"})]), mask])
+    root = el("svg", {}, [defs, group, el("path", {"id": "dup", "d": "M0,0"}), el("path", {"id": "dup", "d": "M1,1"}), root_text])
+    svg = SVG(root)
+    errs, e = H.catch(SVG.checkpicosvg, svg, allow_text=allow_text, drop_unsupported=drop)
+    H.prove(e is None and isinstance(errs, tuple), "gate.returns_a_tuple", detail=repr(e))
+    if e is not None:
+        return
+    present = lambda x: any(k is x for k in root.iterdescendants())
+    named = lambda word: any(word in s for s in errs)
+    for name, node, where in (("image", image, "/svg[0]/g[0]/image[0]"), ("mask", mask, "/svg[0]/defs[0]/mask[0]"), ("text deep inside groups", deep_text, "/svg[0]/g[0]/g[0]/text[0]")):
+        if drop:
+            H.prove(not present(node) and not named(where), "gate.unsupported_element_dropped_wherever_it_sits", detail=f"{name}: {errs}")
+        else:
+            H.prove(present(node) and named(where), "gate.unsupported_element_reported_wherever_it_sits", detail=f"{name}: {errs}")
+    if allow_text:
+        H.prove(present(root_text) and not named("/svg[0]/text[0]"), "gate.text_at_the_root_passes_with_allow_text", detail=str(errs))
+    elif drop:
+        H.prove(not present(root_text), "gate.text_dropped_without_allow_text", detail=str(errs))
+    else:
+        H.prove(named("/svg[0]/text[0]"), "gate.text_reported_without_allow_text", detail=str(errs))
+    H.prove(any("reuses id" in s and "dup" in s for s in errs), "gate.reused_id_reported", detail=str(errs))
+    # a conforming tree
+    ok_root = el("svg", {}, [el("defs", {}, [el("linearGradient", {"id": "g"}, [el("stop", {"offset": "0"})])]), el("g", {"opacity": "0.5"}, [el("path", {"d": "M0,0"}), el("path", {"d": "M1,1"})]), el("path", {"d": "M2,2"})])
+    H.prove(H.call(SVG.checkpicosvg, SVG(ok_root), allow_text=allow_text, drop_unsupported=drop) == (), "gate.conforming_tree_passes")
+    no_defs = el("svg", {}, [el("path", {"d": "M2,2"})])
+    H.prove(any("MissingElement" in s and "defs" in s for s in H.call(SVG.checkpicosvg, SVG(no_defs), allow_text=allow_text, drop_unsupported=drop)), "gate.missing_defs_reported")
